@@ -4,6 +4,9 @@ import XsdataModel.Dict.Encode
 import XsdataModel.Dict.Decode
 import XsdataModel.Dict.EncodeFlags
 import XsdataModel.Dict.Frag
+import XsdataModel.Conv.Factory
+import XsdataModel.Conv.TblCEnv
+import XsdataModel.Conv.FloatRepr
 open Lean Proto Py Xs.Bind Xs.Dict
 
 namespace OpsDict
@@ -57,6 +60,9 @@ def dTarget (j : Json) : Except String Target :=
 
 def fuel : Nat := 200
 
+/-- the driver's environment: no converter for the types outside the layer -/
+def denv : DEnv := { toBEnv := benv }
+
 def serCfg (a : Json) : SerCfg :=
   { ignoreDefaultAttributes := (field a "ignore_default_attributes").getBool?.toOption.getD false }
 
@@ -64,6 +70,32 @@ def jND (r : ND Val) : Json :=
   match r.run with
   | .ok vs => ok (jList jVal vs)
   | .error e => jErr e
+
+/-- the converter models of C05 under the names of their Python classes -/
+def leafTy (name : String) : Option Xs.Conv.Ty :=
+  match name with
+  | "XmlDate" => some .xmlDate | "XmlTime" => some .xmlTime | "XmlDateTime" => some .xmlDateTime
+  | "XmlDuration" => some .xmlDuration | "XmlPeriod" => some .xmlPeriod | "Decimal" => some .decimal
+  | _ => none
+
+def convCEnv : Xs.Conv.CEnv := Xs.Conv.tblCEnv (Xs.Conv.pyFloatReprD tblEnv)
+
+/-- `converter.serialize(converter.deserialize(s, [T]))` through the C05 models -/
+def convOther (name s : Str) : Option Str :=
+  (leafTy (String.ofList name)).bind fun ty =>
+    (Xs.Conv.atomDeserialize convCEnv ty s {}).bind fun a =>
+      match Xs.Conv.atomSerialize a {} with
+      | .ok (t, _) => some t
+      | .error _ => none
+
+/-- the driver's environment with the converter models plugged in -/
+def denvConv : DEnv := { toBEnv := benv, other := convOther }
+
+def leafVar (name : Str) : VarCore :=
+  { index := 1, name := "f".toList, localName := "f".toList, qname := "f".toList, wrapperQName := none,
+    types := [.other name], clazz := none, init := true, mixed := false, tokens := false, format := none,
+    anyType := false, processContents := "strict".toList, required := false, nillable := false, sequence := none,
+    listElement := false, default := .none, namespaces := [], kind := .element, isClazzUnion := false }
 
 partial def dDV (j : Json) : Except String DV :=
   match j with
@@ -88,9 +120,16 @@ def run (op : String) (a : Json) : Option (Except String Json) :=
       let v ← dVal (field a "value")
       let fac ← dFactory (field a "factory")
       let c ← dStr (field a "clazz")
-      pure <| ok (jObj [("in_fragment", jBool (valOKj benv Γ fac fuel c v)),
-                        ("typed", jBool (valOKu benv Γ fac fuel c v)),
+      pure <| ok (jObj [("in_fragment", jBool (valOKj denv Γ fac fuel c v)),
+                        ("typed", jBool (valOKu denv Γ fac fuel c v)),
                         ("no_subclass_pools", jBool (noSubclassPools Γ))])
+  | "dict.leafdec" => some do
+      -- `bind_text` of a JSON string for a field of a converter type, the converter taken from the C05 models
+      let name ← dStr (field a "type")
+      let text ← dStr (field a "text")
+      pure <| match bindTextPlain denvConv (dCfg (field a "config")) (leafVar name) (.str text) with
+        | .ok v => ok (jVal v)
+        | .error e => jErr e
   | "dict.encflags" => some do
       let fac ← dFactory (field a "factory")
       let wrapper ← OpsBind.dOptStr (field a "wrapper")
@@ -111,7 +150,7 @@ def run (op : String) (a : Json) : Option (Except String Json) :=
       let Γ ← dCtx (field a "ctx")
       let data ← dJ (field a "data")
       let target ← dTarget (field a "target")
-      pure <| jND (decode benv Γ (dCfg (field a "config")) fuel target data)
+      pure <| jND (decode denv Γ (dCfg (field a "config")) fuel target data)
   | "dict.roundtrip" => some do
       let Γ ← dCtx (field a "ctx")
       let v ← dVal (field a "value")
@@ -119,7 +158,7 @@ def run (op : String) (a : Json) : Option (Except String Json) :=
       let target ← dTarget (field a "target")
       pure <| match encode Γ fac (serCfg a) fuel v with
         | .error e => jErr e
-        | .ok j => jND (decode benv Γ (dCfg (field a "config")) fuel target j)
+        | .ok j => jND (decode denv Γ (dCfg (field a "config")) fuel target j)
   | _ => none
 
 end OpsDict
